@@ -326,11 +326,16 @@ def run_harness(h, full_name, snap, target, logdir, playback=False):
     # classification
     if timed_out:
         res['status'] = 'TIMEOUT'
+    elif re.search(r'ran out of memory|std::bad_alloc|memory exhausted', text) and not res['failed']:
+        res['status'] = 'MEMOUT'
+        res['detail'] = 'the back end ran out of memory under the address-space cap'
     elif 'error: could not compile' in text or re.search(r'^error(\[E\d+\])?:', text, re.M) and res['verdict'] is None:
         res['status'] = 'COMPILE_ERROR'
         res['detail'] = '\n'.join([l for l in text.splitlines() if l.startswith('error')][:10])
     elif res['verdict'] is None:
-        res['status'] = 'ERROR'   # out of memory, crash of the back end ...
+        # out of memory (address-space cap) is resource exhaustion like a timeout; anything else is a crash of the tool chain
+        oom = re.search(r'bad_alloc|[Oo]ut of memory|memory exhausted|Cannot allocate memory|SIGKILL|signal: 9|signal: 6', text) is not None
+        res['status'] = 'MEMOUT' if oom else 'ERROR'
         res['detail'] = text[-1500:]
     else:
         unwind_fail = [f for f in res['failed'] if 'unwinding assertion' in f['desc'] or 'recursion unwinding' in f['desc']]
@@ -454,7 +459,7 @@ def main():
     import argparse
     ap = argparse.ArgumentParser()
     ap.add_argument('prop')
-    ap.add_argument('--tier', default=os.environ.get('VERIF_TIER', 'quick'), choices=['quick', 'thorough'])
+    ap.add_argument('--tier', default=os.environ.get('VERIF_TIER', 'quick'), choices=['quick', 'thorough', 'extended'])
     ap.add_argument('--replay')
     ap.add_argument('--only', help='run only harnesses whose name contains this substring')
     ap.add_argument('--keep', action='store_true', help='keep the scratch directory')
@@ -473,7 +478,7 @@ def main():
         return do_replay_file(pid, args.replay)
 
     t0 = time.time()
-    harnesses = [dict(h) for h in prop['harnesses'] if args.tier in h.get('tiers', ('quick', 'thorough'))]
+    harnesses = [dict(h) for h in prop['harnesses'] if args.tier == 'extended' or args.tier in h.get('tiers', ('quick', 'thorough'))]
     if args.only:
         harnesses = [h for h in harnesses if args.only in h['name']]
         ONLY[0] = args.only   # partial runs never overwrite the registered evidence file
@@ -613,9 +618,19 @@ def main():
                 rr = next((r for r in results if r['name'] == k['witness_harness']), None)
                 if rr is not None and rr['status'] == 'PASS':
                     inconclusive.append('known finding %s is listed open but its witness harness is UNSAT (stale entry)' % k['id'])
+        # resource exhaustion (time / memory cap) = the query was not decided: stated, never counted as held, and it does not
+        # turn the verdict on the decided queries into an error unless nothing at all was decided
+        undecided = []
         for r in results:
-            if r['status'] in ('TIMEOUT', 'ERROR', 'UNWIND', 'VACUOUS', 'COMPILE_ERROR'):
+            if r['status'] in ('ERROR', 'UNWIND', 'VACUOUS', 'COMPILE_ERROR'):
                 inconclusive.append('%s: %s %s' % (r['name'], r['status'], (r.get('detail') or '')[:300]))
+            elif r['status'] in ('TIMEOUT', 'MEMOUT'):
+                undecided.append('%s: %s after %.0fs (cap %ds / %d GB): not decided, outside this run\'s claim' % (
+                    r['name'], r['status'], r['wall_s'], r['h']['timeout'], r['h'].get('mem_gb', 12)))
+        for l in undecided:
+            log('UNDECIDED: ' + l)
+        if undecided and not any(r['status'] in ('PASS', 'KNOWN') for r in results):
+            inconclusive.append('no query was decided within the resource caps')
         for l in known_lines:
             log(l)
         if violations:
@@ -628,10 +643,10 @@ def main():
                 log('INCONCLUSIVE: ' + l)
             exit_code = 2
         write_evidence(pid, prop, args.tier, seed, results, hashes, time.time() - t0, len(violations),
-                       known_lines=known_lines, inconclusive=inconclusive)
+                       known_lines=known_lines, inconclusive=inconclusive, undecided=undecided)
         npass = sum(1 for r in results if r['status'] == 'PASS')
-        log('[%s] tier=%s: %d/%d harnesses UNSAT (hold within bounds), %d violation(s), %d inconclusive, %.0fs' % (
-            pid, args.tier, npass, len(results), len(violations), len(inconclusive), time.time() - t0))
+        log('[%s] tier=%s: %d/%d harnesses UNSAT (hold within bounds), %d violation(s), %d inconclusive, %d undecided (resource cap), %.0fs' % (
+            pid, args.tier, npass, len(results), len(violations), len(inconclusive), len(undecided), time.time() - t0))
         return exit_code
     finally:
         if args.keep:
@@ -667,7 +682,7 @@ def do_replay_file(pid, path):
     return 0
 
 
-def write_evidence(pid, prop, tier, seed, results, hashes, wall, nviol, known_lines=(), inconclusive=(), note=None):
+def write_evidence(pid, prop, tier, seed, results, hashes, wall, nviol, known_lines=(), inconclusive=(), note=None, undecided=()):
     funcs = set()
     for r in results:
         funcs.update(f for f in r.get('functions', []) if 'verif_' not in f)
@@ -713,6 +728,7 @@ def write_evidence(pid, prop, tier, seed, results, hashes, wall, nviol, known_li
                              'harness oracles under /verif/harness/common', 'libm contracts (validated against the platform libm each run)'],
             'known_findings_reported': list(known_lines),
             'inconclusive': list(inconclusive),
+            'undecided_resource_cap': list(undecided),
         },
         'assumptions': prop.get('assumptions', []),
         'wall_s': round(wall, 1),
